@@ -13,6 +13,10 @@ STR_NAMES = {
 CLS = {'U': 'UNIVERSAL ', 'A': 'APPLICATION ', 'C': '', 'P': 'PRIVATE '}
 MODE = {'I': ' IMPLICIT', 'E': ' EXPLICIT', 'D': ''}
 TAGDEF = {'E': 'EXPLICIT TAGS', 'I': 'IMPLICIT TAGS', 'A': 'AUTOMATIC TAGS'}
+REAL_WC = {
+    'B32': ' (WITH COMPONENTS { mantissa (-16777215..16777215), base (2), exponent (-149..104) })',
+    'B64': ' (WITH COMPONENTS { mantissa (-9007199254740991..9007199254740991), base (2), exponent (-1074..971) })',
+}
 
 
 def big(b):
@@ -35,6 +39,8 @@ def size_text(sz):
     if sz['f'] == 'N':
         return ''
     lb, ub = sz['lb'], ('MAX' if sz['ubinf'] else sz['ub'])
+    # optional rendering hints (C11): a bound written as a value reference
+    lb, ub = sz.get('lbref', lb), (ub if sz['ubinf'] else sz.get('ubref', ub))
     body = str(lb) if (not sz['ubinf'] and lb == ub) else '%s..%s' % (lb, ub)
     if sz['ext']:
         body += ', ...'
@@ -46,6 +52,11 @@ def int_con_text(c):
         return ''
     lb = 'MIN' if c['lbinf'] else str(big(c['lb']))
     ub = 'MAX' if c['ubinf'] else str(big(c['ub']))
+    # optional rendering hints (C11): a bound written as a named number / value reference
+    if not c['lbinf']:
+        lb = c.get('lbref', lb)
+    if not c['ubinf']:
+        ub = c.get('ubref', ub)
     body = lb if lb == ub else '%s..%s' % (lb, ub)
     if c['ext']:
         body += ', ...'
@@ -104,7 +115,8 @@ def render_type(env, T, ind=1):
     pre = tags_text(T['tags'])
     pad = '  ' * ind
     if k == 'REF':
-        return pre + T['name']
+        # optional (C11): a constraint written on the reference,  A (0..5)  /  B (SIZE (2))
+        return pre + T['name'] + (int_con_text(T['con']) if 'con' in T else '') + (size_text(T['sz']) if 'sz' in T else '')
     if k == 'BOOL':
         return pre + 'BOOLEAN'
     if k == 'NULL':
@@ -112,7 +124,8 @@ def render_type(env, T, ind=1):
     if k == 'OID':
         return pre + 'OBJECT IDENTIFIER'
     if k == 'REAL':
-        return pre + 'REAL'
+        # optional (C09/C10): wc = "B32" | "B64", the IEEE 754 binary32/64 inner subtyping of X.696 12.2-12.4
+        return pre + 'REAL' + REAL_WC.get(T.get('wc'), '')
     if k == 'INT':
         nn = ''
         if T.get('nn'):
@@ -177,11 +190,59 @@ def rename(T, mapping):
     return T
 
 
+def value_refs(T, named=(), out=None):
+    """name -> int of every bound of descriptor T that is rendered as a value reference (hints
+    lbref / ubref that are not named numbers of the INTEGER type they constrain)."""
+    out = {} if out is None else out
+    if isinstance(T, dict):
+        nn = [x['n'] for x in T.get('nn', [])] if T.get('k') == 'INT' else list(named)
+        for ref, bound in (('lbref', 'lb'), ('ubref', 'ub')):
+            if ref in T and T[ref] not in nn:
+                b = T[bound]
+                out[T[ref]] = big(b) if isinstance(b, dict) else b
+        for key, val in T.items():
+            if key != 'd':
+                value_refs(val, nn, out)
+    elif isinstance(T, list):
+        for x in T:
+            value_refs(x, named, out)
+    return out
+
+
+def rename_valuerefs(T, prefix):
+    """Copy of descriptor T with every value-reference hint prefixed (for batching);
+    named numbers keep their names."""
+    def walk(x, nn):
+        if isinstance(x, dict):
+            if x.get('k') == 'INT':
+                nn = [y['n'] for y in x.get('nn', [])]
+            out = {}
+            for key, val in x.items():
+                if key in ('lbref', 'ubref') and val not in nn:
+                    out[key] = prefix + val
+                elif key == 'd':
+                    out[key] = val
+                else:
+                    out[key] = walk(val, nn)
+            return out
+        if isinstance(x, list):
+            return [walk(y, nn) for y in x]
+        return x
+    return walk(T, [])
+
+
 def render_module(name, env, types=None):
     """One ASN.1 module containing env['types'] (or the given subset)."""
     names = types if types is not None else sorted(env['types'])
     lines = ['%s DEFINITIONS %s%s ::= BEGIN' % (
         name, TAGDEF[env['tagdef']], ' EXTENSIBILITY IMPLIED' if env.get('extimp') else ''), '']
+    refs = {}
+    for n in names:
+        value_refs(env['types'][n], (), refs)
+    for r in sorted(refs):
+        lines.append('%s INTEGER ::= %d' % (r, refs[r]))
+    if refs:
+        lines.append('')
     for n in names:
         lines.append('%s ::= %s' % (n, render_type(env, env['types'][n])))
         lines.append('')
